@@ -101,7 +101,7 @@ theorem readByte_ext {p b r} (q : Bytes) (h : readByte p = .ok (b, r)) : readByt
   Binary.readByte_ext q h
 attribute [grind →] readByte_len
 grind_pattern readByte_ext => readByte (p ++ q), readByte p, Out.ok (b, r)
-theorem checkSize_len {n r k} (h : Binary.checkSize n r = .ok k) : k ≤ r.length := (Binary.checkSize_ok h).1
+theorem checkSize_len {n r k} (h : Binary.checkSize n r = .ok k) : k ≤ r.length := (Binary.checkSize_inv h).1
 attribute [grind →] checkSize_len
 grind_pattern Binary.checkSize_ext => Binary.checkSize n (r ++ q), Binary.checkSize n r, Out.ok k
 
